@@ -456,7 +456,7 @@ func (s *Sim) Run() {
 	s.out("final", o.String()+" "+s.chainCheck())
 	for _, p := range s.Peers {
 		s.out(fmt.Sprintf("asked %d", p.Idx), fmt.Sprintf("getheaders %d getcfcheckpt %d getcfheaders %d getcfilters %d getdata %d sessions %d lied %d",
-			min1(p.GotGetHeaders), min1(p.GotGetCFCheckpt), min1(p.GotGetCFHeaders), min1(p.GotGetCFilters), min1(p.GotGetData),
+			min1(atomic.LoadInt32(&p.GotGetHeaders)), min1(atomic.LoadInt32(&p.GotGetCFCheckpt)), min1(atomic.LoadInt32(&p.GotGetCFHeaders)), min1(atomic.LoadInt32(&p.GotGetCFilters)), min1(atomic.LoadInt32(&p.GotGetData)),
 			min1(p.Sessions), atomic.LoadInt32(&p.Lied)))
 	}
 }
